@@ -24,7 +24,7 @@ import numpy as np
 import blackbird as bb
 import strawberryfields.io as sfio
 
-from blackbird.utils import match_template, TemplateError
+from blackbird.utils import match_template, to_DiGraph, TemplateError
 from .parameters import MeasuredParameter, par_evaluate
 
 
@@ -552,10 +552,45 @@ def validate_gate_parameters(compiled, device=None):
             "Program cannot be matched with the device layout due to incompatible topology."
         ) from e
 
+    # ``match_template`` only extracts the values of the template parameters; the values that
+    # are hard-coded in the device layout (e.g., the phase of the S2gates) are fixed by the
+    # hardware, so the circuit must reproduce them as well
+    if not _fixed_layout_values_match(bb_device, compiled):
+        raise CircuitError(
+            "Program cannot be matched with the device layout due to incompatible parameter values."
+        )
+
     # raises ValueError if parameters are invalid
     device.validate_parameters(**user_parameters)
 
     return user_parameters
+
+
+def _fixed_layout_values_match(template, program, atol=1e-5):
+    """Checks that a Blackbird program, known to have the topology of the template, can be
+    matched to it such that every numerical value hard-coded in the template is reproduced.
+
+    Args:
+        template (blackbird.BlackbirdProgram): device layout
+        program (blackbird.BlackbirdProgram): program with the same topology as the layout
+        atol (float): absolute tolerance, the one used for single-valued parameter ranges
+
+    Returns:
+        bool: whether the fixed values of the layout agree with those of the program
+    """
+    numeric = (int, float, complex, np.number)
+
+    def node_match(n1, n2):
+        if n1["name"] != n2["name"] or n1["modes"] != n2["modes"]:
+            return False
+
+        for x, y in zip(n1["args"], n2["args"]):
+            if isinstance(x, numeric) and isinstance(y, numeric) and abs(x - y) > atol:
+                return False
+
+        return True
+
+    return nx.is_isomorphic(to_DiGraph(template), to_DiGraph(program), node_match)
 
 
 def remove_loss(circuit):
